@@ -7,7 +7,7 @@ trap 'rm -rf "$tmp"' EXIT
 cp -r "$here"/hist "$here"/lin "$here"/float "$here"/text "$here"/base "$here"/reg "$here"/tracevalid "$here"/histseq "$tmp"/
 (cd "$tmp/hist" && for f in Hist HistLemmas HistInv HistProof; do timeout 600 coqc -Q . "" $f.v; done) | tail -2
 (cd "$tmp/lin" && timeout 600 coqc Cas.v) | tail -1
-(cd "$tmp/float" && timeout 600 coqc F1_trans.v >/dev/null && timeout 600 coqc F3_negzero.v >/dev/null && timeout 600 coqc bits.v >/dev/null && echo float ok)
+(cd "$tmp/float" && timeout 600 coqc F1_trans.v >/dev/null && timeout 600 coqc F3_negzero.v >/dev/null && timeout 600 coqc bits.v >/dev/null && timeout 600 coqc F4_mono.v >/dev/null && echo float ok)
 (cd "$tmp/text" && timeout 600 coqc TextProto.v) | tail -1
 (cd "$tmp/base" && timeout 600 coqc Utf8.v) | tail -1
 (cd "$tmp/reg" && timeout 600 coqc Reg.v && echo reg ok)
